@@ -135,7 +135,8 @@ theorem insert_fault_bucket (key : Bytes) (o : WriteOpts) (b0 : Bytes) (fs : FS)
     (∀ s, (runFault env plan (insert cfg cache key o) fs 0).1 = .ok s → ∃ tm,
       (∀ t, o.time = some t → tm = t) ∧
       (runFault env plan (insert cfg cache key o) fs 0).2.1.get (bucketPath cfg cache key) =
-        some (.file (b0 ++ (codec cfg).frame (mkRec key o tm)))) :=
+        some (.file (b0 ++ (codec cfg).frame (mkRec key o tm))) ∧
+      ((∀ t, o.time = some t → t ≤ timeMax) → tm ≤ timeMax)) :=
   wpD_fault (insert_bucket_wp cfg env cache key o b0 hb) plan 0
 
 /-- Removal is the insertion of a tombstone: same guarantee. -/
